@@ -256,7 +256,7 @@ def run_c07(case, fail):
         avail = {(int(i), j) for i in cand for j in range(a)}
         ncand_rows = n
     elif mode == 3:      # candidate indices + boolean availability matrix
-        cand = np.sort(rs.choice(n, int(rs.randint(1, n + 1)), replace=False))
+        cand = rs.choice(n, int(rs.randint(1, n + 1)), replace=False)      # caller order, not sorted: matrix rows follow it
         A = rs.rand(len(cand), a) < 0.6
         if case["t"] % 2:
             A = A.astype(int)            # 0/1 integer availability matrix
